@@ -123,6 +123,8 @@ fn gen_index(rng: &mut Rng, size: usize, depth: usize) -> (Value, i64) {
                     "names": [(0..nnm).map(|i| if nnm > 10 { json!({"s": format!("name{}", i)}) } else { json!({"s": *rng.pick(&["f", "g", "f", ""])}) }).collect::<Vec<_>>()],
                     "mappings": [own_mappings(&toks)]});
                 if let Some(r) = own_range(&toks) { d["range"] = json!([r]); }
+                // a section's map may have a source root (the flattened map has none: names are carried over joined)
+                if rng.chance(1, 3) { d["root"] = json!([cps(*rng.pick(&["lib", "lib/", "/abs", "http://h/x", ""]))]); }
                 if rng.chance(1, 2) { d["contents"] = json!([(0..nsrc).map(|i| if rng.chance(1, 3) { json!([]) } else if rng.chance(1, 4) { json!([""]) } else { json!([format!("content {} of section", i)]) }).collect::<Vec<_>>()]); }
                 if rng.chance(1, 3) || nsrc > 10 { d["ignore"] = json!([[rng.below(nsrc), nsrc - 1, (nsrc / 2 + 30).min(nsrc - 1)]]); }
                 if k == 2 { d["xfs"] = json!([(0..nsrc).map(|_| json!([])).collect::<Vec<_>>()]); }
